@@ -39,11 +39,18 @@ fn drive<I: Iterator<Item = Result<(usize, usize), ()>>>(mut it: I, cap: usize) 
                 }
             }
             Some(Err(())) => {
-                // the iterator must yield nothing more: ask three more times
+                // ask three more times: find_iter / captures_iter must yield nothing more, split hands out
+                // the remainder; Ok items that come after the Err are recorded like the others
                 let mut after = 0;
                 for _ in 0..3 {
-                    if it.next().is_some() {
-                        after += 1
+                    match it.next() {
+                        Some(Ok((s, e))) => {
+                            spans.push(j(s));
+                            spans.push(j(e));
+                            after += 1
+                        }
+                        Some(Err(())) => after += 1,
+                        None => {}
                     }
                 }
                 return (END_ERR, after, spans);
